@@ -2,11 +2,20 @@ import Driver.Util
 import Hv.Misc.Hydrex
 
 /-! Line-protocol driver for the Hydrex model (domain C27).  Same ops and reply format as
-    `/verif/harness/c27.go`.  Besides the model state it tracks the Spec state (the last saved
-    items of every (index name, domain), nothing after a destroy).  A `core` reply is flagged
-    `C27-value-update-skipped` when it has the Spec's keys but other values, `C27-stale-keys-kept`
-    when the keys differ; an `index` reply is flagged `C27-destroy-leaves-index` /
-    `C27-index-inconsistent` when it is not the set of domains whose model core holds the key. -/
+    `/verif/harness/c27.go`; names arrive as `x<hex>` tokens and are numbered on first use.
+    Besides the model state it tracks the Spec state (the last saved items of every (index name,
+    domain), nothing after a destroy).
+
+    Cases whose keys are all clean swamp-name parts (non-empty, no '/') run the PROVEN step function
+    `Hv.Hydrex.step`.  A case that uses a hostile key runs `stepX`, an executable extension that adds
+    what the real stack does with such keys (it is compared with the implementation, not proved):
+      * the gateway refuses swamp names that do not have exactly three non-empty parts, so the index swamp of a
+        key that is empty or contains '/' does not exist — ONE such name in a CatalogSaveManyToMany request
+        rejects the whole request (Hydrex only logs the error), CatalogDeleteManyFromMany skips it;
+      * an empty key also makes the whole CatalogSaveMany of the core data fail (conversion error).
+    Flags: `C27-value-update-skipped`, `C27-stale-keys-kept`, `C27-destroy-leaves-index`,
+    `C27-index-inconsistent`, and for hostile keys `C27-empty-key-save-ignored`,
+    `C27-key-with-separator-not-indexed`. -/
 namespace Driver.C27
 open Hv.Hydrex
 
@@ -14,74 +23,130 @@ structure DSt where
   cfg : Cfg
   s : St
   spec : Idx → Dom → Key → Option Val
+  idxs : List String
+  doms : List String
+  keys : List String          -- key tokens, numbered by position
+  hostile : Bool              -- some key of this case is empty or contains '/'
 
-def tok (pre : Char) (s : String) : Option Nat :=
-  match s.toList with
-  | c :: rest => if c == pre then (String.ofList rest).toNat? else none
-  | [] => none
+def idOf (l : List String) (t : String) : List String × Nat :=
+  match l.idxOf? t with
+  | some i => (l, i)
+  | none => (l ++ [t], l.length)
 
-def parseItems (s : String) : Option (List (Key × Val)) :=
+/-- hex token of the part of the name before the first '/' (0x2f) -/
+def normTok (t : String) : String :=
+  let body := (t.drop 1).toString.toList
+  let rec go : List Char → List Char
+    | a :: b :: rest => if a == '2' && b == 'f' then [] else a :: b :: go rest
+    | _ => []
+  "x" ++ String.ofList (go body)
+
+def isHostileTok (t : String) : Bool := t == "x" || normTok t != t
+
+def parseItems (s : String) : Option (List (String × Val)) :=
   if s == "-" then some []
   else (s.splitOn ",").mapM fun kv =>
     match kv.splitOn "=" with
-    | [k, v] => match tok 'k' k, tok 'v' v with
-      | some a, some b => some (a, b)
-      | _, _ => none
+    | [k, v] => if k.startsWith "x" && v.startsWith "v" then ((v.drop 1).toString.toNat?).map fun n => (k, n) else none
     | _ => none
 
-def itemsFn (l : List (Key × Val)) : Key → Option Val := fun k => l.lookup k
+/-- executable extension of `Hv.Hydrex.step` for hostile keys (see the header) -/
+def stepX (cfg : Cfg) (keys : List String) (s : St) (i : Idx) (d : Dom) (items : Option (Key → Option Val)) : St :=
+  let ks := List.range keys.length
+  let empty (k : Key) : Bool := keys.getD k "?" == "x"
+  let hostile (k : Key) : Bool := isHostileTok (keys.getD k "?")
+  let old := s.core i d
+  match items with
+  | none =>   -- destroy
+    -- CatalogDeleteManyFromMany skips an invalid swamp name and goes on with the others
+    let blockedDel := false
+    { core := fun i' d' k => if i' = i ∧ d' = d then none else s.core i' d' k,
+      index := fun i' j d' =>
+        if i' = i ∧ d' = d ∧ cfg.destroyCleansIndex ∧ !blockedDel ∧ (old j).isSome then false else s.index i' j d' }
+  | some it =>
+    let writes (k : Key) : Bool :=
+      match old k, it k with
+      | none, some _ => true
+      | some v, some w => cfg.updatesExisting && v != w
+      | _, _ => false
+    let stale (k : Key) : Bool := (old k).isSome && (it k).isNone && cfg.saveRemovesStale
+    let fresh (k : Key) : Bool := (old k).isNone && (it k).isSome
+    let coreBlocked := ks.any (fun k => writes k && empty k)       -- CatalogSaveMany: "key field must be a non-empty string"
+    let addBlocked := ks.any (fun k => fresh k && hostile k)       -- CatalogSaveManyToMany: one invalid swamp name rejects the request
+    let delBlocked := false                                        -- CatalogDeleteManyFromMany skips invalid names one by one
+    { core := fun i' d' k =>
+        if i' = i ∧ d' = d then
+          (if stale k then none else if writes k && !coreBlocked then it k else old k)
+        else s.core i' d' k,
+      index := fun i' j d' =>
+        if i' = i ∧ d' = d then
+          (if fresh j && !addBlocked then true
+           else if stale j && !delBlocked then false
+           else s.index i' j d')
+        else s.index i' j d' }
 
-def keys : List Nat := [0, 1, 2, 3, 4]
-def doms : List Nat := [0, 1, 2]
-
-def renderCore (f : Key → Option Val) : String :=
-  let parts := keys.filterMap fun k => (f k).map fun v => s!"k{k}=v{v}"
+def renderCore (keys : List String) (f : Key → Option Val) : String :=
+  let parts := ((List.range keys.length).filterMap fun k => (f k).map fun v => s!"{keys.getD k "?"}=v{v}")
+  let parts := (parts.toArray.qsort (· < ·)).toList
   if parts.isEmpty then "-" else ",".intercalate parts
 
 def step (d : DSt) (line : String) : DSt × String :=
   match line.splitOn " " with
-  | ["case", _] => ({ d with s := init, spec := fun _ _ _ => none }, line)
-  | ["save", i, dm, its] =>
-    match tok 'i' i, tok 'd' dm, parseItems its with
-    | some i, some dm, some l =>
-      let f := itemsFn l
-      ({ d with s := Hv.Hydrex.step d.cfg d.s (.save i dm f),
+  | ["case", _] => ({ d with s := init, spec := fun _ _ _ => none, idxs := [], doms := [], keys := [], hostile := false }, line)
+  | ["idle"] => (d, "ok")
+  | ["save", it, dt, its] =>
+    match parseItems its with
+    | none => (d, "bad-op")
+    | some l =>
+      let (idxs, i) := idOf d.idxs it
+      let (doms, dm) := idOf d.doms dt
+      let (keys, kl) := l.foldl (fun (acc : List String × List (Key × Val)) (kv : String × Val) =>
+        let (ks, id) := idOf acc.1 kv.1
+        (ks, acc.2 ++ [(id, kv.2)])) (d.keys, [])
+      let hostile := d.hostile || l.any (fun kv => isHostileTok kv.1)
+      let f : Key → Option Val := fun k => kl.lookup k
+      let s' := if hostile then stepX d.cfg keys d.s i dm (some f) else Hv.Hydrex.step d.cfg d.s (.save i dm f)
+      ({ d with s := s', idxs := idxs, doms := doms, keys := keys, hostile := hostile,
                 spec := fun i' d' k => if i' = i ∧ d' = dm then f k else d.spec i' d' k }, "ok")
-    | _, _, _ => (d, "bad-op")
-  | ["destroy", i, dm] =>
-    match tok 'i' i, tok 'd' dm with
-    | some i, some dm =>
-      ({ d with s := Hv.Hydrex.step d.cfg d.s (.destroy i dm),
-                spec := fun i' d' k => if i' = i ∧ d' = dm then none else d.spec i' d' k }, "ok")
-    | _, _ => (d, "bad-op")
-  | ["core", i, dm] =>
-    match tok 'i' i, tok 'd' dm with
-    | some i, some dm =>
-      let got := keys.map (d.s.core i dm)
-      let want := keys.map (d.spec i dm)
-      let fl :=
-        if got == want then ""
-        else if got.map Option.isSome == want.map Option.isSome then "\t#F:C27-value-update-skipped"
-        else "\t#F:C27-stale-keys-kept"
-      (d, "core " ++ renderCore (d.s.core i dm) ++ fl)
-    | _, _ => (d, "bad-op")
-  | ["index", i, k] =>
-    match tok 'i' i, tok 'k' k with
-    | some i, some k =>
-      let got := doms.filter fun dm => d.s.index i k dm
-      let want := doms.filter fun dm => (d.s.core i dm k).isSome
-      let fl := if got == want then "" else
-        (if d.cfg.destroyCleansIndex then "\t#F:C27-index-inconsistent" else "\t#F:C27-destroy-leaves-index")
-      let parts := got.map fun dm => s!"d{dm}"
-      (d, "index " ++ (if parts.isEmpty then "-" else ",".intercalate parts) ++ fl)
-    | _, _ => (d, "bad-op")
+  | ["destroy", it, dt] =>
+    let (idxs, i) := idOf d.idxs it
+    let (doms, dm) := idOf d.doms dt
+    let s' := if d.hostile then stepX d.cfg d.keys d.s i dm none else Hv.Hydrex.step d.cfg d.s (.destroy i dm)
+    ({ d with s := s', idxs := idxs, doms := doms,
+              spec := fun i' d' k => if i' = i ∧ d' = dm then none else d.spec i' d' k }, "ok")
+  | ["core", it, dt] =>
+    let (idxs, i) := idOf d.idxs it
+    let (doms, dm) := idOf d.doms dt
+    let ks := List.range d.keys.length
+    let got := ks.map (d.s.core i dm)
+    let want := ks.map (d.spec i dm)
+    let fl :=
+      if got == want then ""
+      else if d.hostile then (if d.keys.contains "x" then "\t#F:C27-empty-key-save-ignored" else "\t#F:C27-key-with-separator-not-indexed")
+      else if got.map Option.isSome == want.map Option.isSome then "\t#F:C27-value-update-skipped"
+      else "\t#F:C27-stale-keys-kept"
+    ({ d with idxs := idxs, doms := doms }, "core " ++ renderCore d.keys (d.s.core i dm) ++ fl)
+  | ["index", it, kt] =>
+    let (idxs, i) := idOf d.idxs it
+    let (keys, k) := idOf d.keys kt
+    let j := k
+    let ds := List.range d.doms.length
+    let got := ds.filter fun dm => d.s.index i j dm
+    -- Spec: the domains whose last saved items contain exactly this key
+    let want := ds.filter fun dm => (d.spec i dm k).isSome
+    let fl := if got == want then "" else
+      (if d.hostile || isHostileTok kt then
+         (if d.keys.contains "x" || kt == "x" then "\t#F:C27-empty-key-save-ignored" else "\t#F:C27-key-with-separator-not-indexed")
+       else if d.cfg.destroyCleansIndex then "\t#F:C27-index-inconsistent" else "\t#F:C27-destroy-leaves-index")
+    let parts := ((got.map fun dm => d.doms.getD dm "?").toArray.qsort (· < ·)).toList
+    ({ d with idxs := idxs, keys := keys }, "index " ++ (if parts.isEmpty then "-" else ",".intercalate parts) ++ fl)
   | _ => (d, "bad-op")
 
 def run (args : List String) : IO UInt32 := do
   let kv := parseArgs args
   let yes (k : String) : Bool := arg kv k == "yes"
   let cfg : Cfg := ⟨yes "updatesExisting", yes "saveRemovesStale", yes "destroyCleansIndex"⟩
-  lineLoop step ⟨cfg, init, fun _ _ _ => none⟩
+  lineLoop step ⟨cfg, init, fun _ _ _ => none, [], [], [], false⟩
   return 0
 
 end Driver.C27
